@@ -644,9 +644,16 @@ struct FloatCurve {
 }
 fn gen_float(rng: &mut Rng, deg: usize, dim: usize) -> FloatCurve {
     let sel = rng.below(20);
-    let (pts, kind): (Vec<Vec<f64>>, &'static str) = if sel < 13 {
+    let (pts, kind): (Vec<Vec<f64>>, &'static str) = if sel >= 17 {
+        // a small curve far from the origin: short dyadic shape (amplitude 2^0..2^-6) translated by
+        // 2^20..2^30 per axis, all exactly representable: the position of an extremum does not depend on
+        // where the curve sits, but a formula that multiplies coordinates cancels catastrophically here
+        let amp = 2f64.powi(-(rng.range_i64(0, 6) as i32));
+        let off: Vec<f64> = (0..dim).map(|_| 2f64.powi(rng.range_i64(20, 30) as i32) * if rng.bool() { 1.0 } else { -1.0 }).collect();
+        ((0..=deg).map(|_| (0..dim).map(|d| off[d] + amp * rng.range_i64(-16, 16) as f64 / 4.0).collect()).collect(), "far_from_origin")
+    } else if sel < 11 {
         ((0..=deg).map(|_| (0..dim).map(|_| rng.f64_in(-10.0, 10.0)).collect()).collect(), "uniform")
-    } else if sel < 16 {
+    } else if sel < 14 {
         ((0..=deg).map(|_| (0..dim).map(|_| rng.range_i64(-8, 8) as f64).collect()).collect(), "small_integers")
     } else {
         // integer control points whose top power coefficient vanishes exactly (cubic: linear
@@ -1268,7 +1275,7 @@ fn main() {
         let proto = req(
             Sub::new(
                 "extrema_f64",
-                "f64: random curves (13/20 uniform in [-10,10], 3/20 small integers, 4/20 integer control points whose leading power coefficient vanishes exactly) against a 4097-point parameter grid evaluated by the oracle's Bernstein form: returned parameters and inflections in [0,1], coordinate at the min (max) parameter <= (>=) every grid sample within 256*eps*scale; one case per (curve type, curve, axis); non-trivial = coordinate not constant on the grid",
+                "f64: random curves (11/20 uniform in [-10,10], 3/20 small integers, 3/20 integer control points whose leading power coefficient vanishes exactly, 3/20 a small dyadic shape translated by 2^20..2^30 per axis) against a 4097-point parameter grid evaluated by the oracle's Bernstein form: returned parameters and inflections in [0,1], coordinate at the min (max) parameter <= (>=) every grid sample within 256*eps*scale; one case per (curve type, curve, axis); non-trivial = coordinate not constant on the grid",
             )
             .with_floor(nf * 4),
             &req_ext,
